@@ -22,6 +22,11 @@ Session dimension: sequences of two or three operations in ONE process (`pkg._ru
 `os.chdir` between them (success then failure, failure then failure, failure then success, …; the same or a fresh `API` object; the
 failing later steps rotate through every class of invocation point): every step is judged like an operation run alone — model and
 specification know nothing of the process' past (`session_restores_cwd`, `session_fault_reported`).
+History dimension (`history_bases`, `pkg.prior_case`): every package target's pipelines on ONE output tree that one or two earlier succeeding package runs
+of the same project have filled (each a call of its own; with / without `clean`; the same or more architectures) — the package build directory, which is
+wiped only with `clean`, still holds what the packaging tool left there; then every invocation point failing both ways, the judged run with and without
+`clean`. The model starts from `afterRuns` of the earlier configurations (Lean `Sys/PkgHistory.lean`; theorems `history_fault_spec`,
+`history_package_failure_no_artifact`: the fault theorems hold from every world, so from every history).
 Environment dimension: the pipelines of every target also run with optional helper programs installed next to the named tools
 (`pkg.helper_candidates`: every program name the packaging code mentions in a `which` / `execute` / `os.system` / `subprocess` call —
 read off its syntax tree — every name a run looked up with `shutil.which`, and the common formatters, caches, wrappers: xcpretty, ccache,
@@ -91,6 +96,9 @@ THEOREMS = [
     "Pydjinni.Sys.Pkg.publish_remote_git_unavailable_130",
     "Pydjinni.Sys.Pkg.publish_remote_fault_reported",
     "Pydjinni.Sys.Pkg.publish_local_no_command",
+    "Pydjinni.Sys.Pkg.afterRuns_calls",
+    "Pydjinni.Sys.Pkg.history_fault_spec",
+    "Pydjinni.Sys.Pkg.history_package_failure_no_artifact",
 ]
 LEVEL = "proof"
 TRUSTED = ("external tools replaced by stub scripts that log their invocation and the status they exit with, fail at the chosen point and otherwise "
@@ -193,6 +201,38 @@ def location_bases(ctx):
             {"key": "nuget", "platforms": [["windows", ["x86", "x86_64", "armv8"]]], "phase": "package", "clean": True},
         ]
     return [{**b, "out": o, "cwd": c} for (o, c) in LOCATIONS for b in reps]
+
+
+def history_bases(ctx):
+    """the history dimension: the operation runs on an output tree that earlier *succeeding* package runs of the same project have filled —
+    build directories, the package build directory (wiped only with `clean`) holding what the packaging tool left there, the package output
+    directory holding the finished artifact. Every package target; one or two earlier runs (with / without clean, with the same or with more
+    architectures); the judged run with and without clean; package and publish phase. Every invocation point of each then fails in turn,
+    both ways (`fault_cases`): after the failing run 130, cwd restored, no finished artifact in the package output directory."""
+    reps = [
+        {"key": "aar", "platforms": [["android", ["x86", "armv8"]]], "phase": "package"},
+        {"key": "nuget", "platforms": [["windows", ["x86_64"]]], "phase": "package", "pdb": True, "readme": True},
+        {"key": "swiftpackage", "platforms": [["macos", ["x86_64", "armv8"]], ["ios", ["armv8"]]], "phase": "package", "dsym": True},
+    ]
+    more = {"aar": [["android", ["x86", "armv7", "armv8"]]], "nuget": [["windows", ["x86", "x86_64"]]],
+            "swiftpackage": [["macos", ["x86_64", "armv8"]], ["ios", ["armv8"]], ["ios_simulator", ["x86_64"]]]}
+    out = []
+    for b in reps:
+        for clean in (False, True):
+            out.append({**b, "clean": clean, "prior": [{"clean": False}]})
+            out.append({**b, "clean": clean, "prior": [{"clean": True}, {"clean": False}]})
+        out.append({**b, "clean": False, "prior": [{"clean": False, "platforms": more[b["key"]]}]})
+        out.append({**b, "clean": False, "prior": [{"clean": False}], "out": "else_abs", "cwd": "sub"})
+    if not ctx.quick:
+        for b in reps:
+            out.append({**b, "clean": True, "prior": [{"clean": False, "platforms": more[b["key"]]}]})
+            out.append({**b, "clean": False, "prior": [{"clean": False}, {"clean": False}, {"clean": False}], "configuration": "debug"})
+            out.append({**b, "clean": False, "prior": [{"clean": False}], "out": "dotdot"})
+    # the publish pipelines after a history of package runs
+    out.append({"key": "aar", "platforms": [["android", ["x86"]]], "phase": "publish", "publish_mode": "local", "prior": [{"clean": False}]})
+    out.append({"key": "nuget", "platforms": [["windows", ["x86_64"]]], "phase": "publish", "publish_mode": "remote", "pdb": True, "prior": [{"clean": False}]})
+    out.append({"key": "swiftpackage", "platforms": [["ios", ["armv8"]]], "phase": "publish", "publish_mode": "git", "repo_exists": False, "prior": [{"clean": True}, {"clean": False}]})
+    return out
 
 
 def env_bases(ctx, r, helpers, derived):
@@ -496,9 +536,12 @@ def judge(ctx, cases, obs_l, templates, breaks):
         key = json.dumps([c["key"], c["phase"], c.get("publish_mode"), [len(a) for _, a in c["platforms"]], bool(c.get("dsym")), bool(c.get("pdb")),
                           pkg.out_kind(c), c.get("cwd", "proj"), len(c.get("helpers") or ()), c.get("address"), bool(c.get("repo_exists")),
                           (f["tool"], f["sig"], f["kind"]) if f else None,
-                          [p[1:] for p in f["points"]] if f and f.get("set") else None, history_shape(c), bool(c.get("fresh_api"))])
+                          [p[1:] for p in f["points"]] if f and f.get("set") else None, history_shape(c), bool(c.get("fresh_api")),
+                          [[bool(p.get("clean")), "platforms" in p] for p in c.get("prior") or ()], bool(c.get("clean")) if c.get("prior") else None])
         ctx.count(key=key, nontrivial=f is not None, sample={"case": describe(c), "impl": {"code": o.get("code"), "cwdAfter": o.get("cwdAfter"), "calls": len(o.get("calls", []))}})
         ctx.stat(f"{c['key']}_{c['phase']}_" + ((f"set{len(f['points'])}" if f.get("set") else f["kind"]) if f else "ok"))
+        if c.get("prior"):
+            ctx.stat("tree_history_" + "".join("C" if p.get("clean") else "S" for p in c["prior"]) + (">clean" if c.get("clean") else ">keep") + ("_fault" if f else "_ok"))
         if "history" in c:
             ctx.stat("sequence_step_" + "".join("F" if h[3] else "S" for h in history_shape(c)) + (">F" if f else ">S"))
         if f and f.get("set") and s.get("effective"):
@@ -583,6 +626,8 @@ def run(ctx):
                             "tools + arguments of the fault set, what the process did before); non-trivial = a fault is injected")
     ctx.assumptions += [
         "a tool that fails leaves no output file (stubs write only on success); copytree/copy are atomic",
+        "histories of the output tree: the earlier runs succeed (their tools are the same stubs), use the same project directory, target, version and `package.out`; "
+        "nothing but pydjinni touches the tree between the runs",
         "publish is judged from the state a succeeding package run leaves behind (a separate API object, as a separate CLI call would have)",
         "`gradlew` cannot be absent during `package` (the operation writes it itself); there the 'missing' fault is a missing `java`",
         "a helper program (formatter, cache, wrapper) itself never fails and never writes a file",
@@ -594,7 +639,7 @@ def run(ctx):
     r = random.Random(f"{ctx.seed}/c20")
     templates = {k: pkg.template_files(common.SRC, k) for k in pkg.ALL_PLATFORMS}
     breaks = []
-    bases = corpus_bases() + package_bases(ctx, r) + publish_bases(ctx) + location_bases(ctx) + address_bases(ctx) + unquoted_bases(ctx)
+    bases = corpus_bases() + package_bases(ctx, r) + publish_bases(ctx) + location_bases(ctx) + history_bases(ctx) + address_bases(ctx) + unquoted_bases(ctx)
     ok_runs = evaluate(ctx, [dict(b) for b in bases], templates, breaks)
     # the environment dimension: helper programs named by the code (statically: `pkg.helper_candidates`; dynamically: every name the
     # runs so far looked up with `shutil.which` that is not a named tool) plus the common ones, installed next to the named tools
